@@ -108,6 +108,16 @@ func (s *Sched) Arrived(key string) bool {
 	return s.arrived[key]
 }
 
+// Pos returns the index of the next script entry to be passed.
+func (s *Sched) Pos() int {
+	if s == nil {
+		return 0
+	}
+	s.mu.Lock()
+	defer s.mu.Unlock()
+	return s.pos
+}
+
 // Stats returns (followed, desync, remaining).
 func (s *Sched) Stats() (int, int, int) {
 	s.mu.Lock()
